@@ -1,3 +1,4 @@
+import Agd.Tie.TrC17
 import Agd.Lemmas.Forward
 import Agd.Tie.C17
 /-!
@@ -650,3 +651,47 @@ example : (exchange .udp 7 ⟨[97, 98, 46], 1⟩
 #print axioms accepted_reply_parsed_from_received_bytes
 
 end Agd.Forward
+
+/-! Translated-source tie (round 3) -/
+#print axioms Agd.Tie.TrC17.translation_complete
+#print axioms Agd.Tie.TrC17.idx_of_inRange
+#print axioms Agd.Tie.TrC17.serve_main_reply_used
+#print axioms Agd.Tie.TrC17.serve_netErr_fallback_once
+#print axioms Agd.Tie.TrC17.serve_no_active_main
+#print axioms Agd.Tie.TrC17.serve_other_error_final
+#print axioms Agd.Tie.TrC17.serve_without_fallbacks
+#print axioms Agd.Tie.TrC17.serve_at_most_two
+#print axioms Agd.Tie.TrC17.idx_nat
+#print axioms Agd.Tie.TrC17.idx_range
+#print axioms Agd.Tie.TrC17.serve_tr
+#print axioms Agd.Tie.TrC17.pick_empty
+#print axioms Agd.Tie.TrC17.pick_active_element
+#print axioms Agd.Tie.TrC17.pick_no_panic_iff
+#print axioms Agd.Tie.TrC17.pick_tr
+#print axioms Agd.Tie.TrC17.hc_backoff_skips_probe
+#print axioms Agd.Tie.TrC17.hc_probe_failed
+#print axioms Agd.Tie.TrC17.hc_probe_ok
+#print axioms Agd.Tie.TrC17.hc_no_panic_iff
+#print axioms Agd.Tie.TrC17.hcUpstream_tr
+#print axioms Agd.Tie.TrC17.range_inv
+#print axioms Agd.Tie.TrC17.healthcheck_backoff_not_active
+#print axioms Agd.Tie.TrC17.healthcheck_failed_not_active
+#print axioms Agd.Tie.TrC17.fm_some
+#print axioms Agd.Tie.TrC17.healthcheck_ok_active
+#print axioms Agd.Tie.TrC17.range_noop
+#print axioms Agd.Tie.TrC17.refresh_no_fallbacks_noop
+#print axioms Agd.Tie.TrC17.refresh_runs_healthcheck
+#print axioms Agd.Tie.TrC17.Refresh_is_refresh
+#print axioms Agd.Tie.TrC17.checkUpstream_tr
+#print axioms Agd.Tie.TrC17.reportChange_metric
+#print axioms Agd.Tie.TrC17.validate_accepts_only_matching
+#print axioms Agd.Tie.TrC17.validate_no_panic_iff
+#print axioms Agd.Tie.TrC17.validate_tr
+#print axioms Agd.Tie.TrC17.readValid_accepts_iff
+#print axioms Agd.Tie.TrC17.readMsg_ok_only_if
+#print axioms Agd.Tie.TrC17.isExpectedConnErr_tr
+#print axioms Agd.Tie.TrC17.exchange_eq_exchangeX
+#print axioms Agd.Tie.TrC17.exchange_tr
+#print axioms Agd.Tie.TrC17.exchangeNet_retry_once
+#print axioms Agd.Tie.TrC17.annotate_nil_iff
+#print axioms Agd.Tie.TrC17.handler_exchange_passes
